@@ -97,6 +97,8 @@ class Layout:
     newline: str = '\n'            # line separator: \n, \r\n or \r (str.splitlines treats them alike)
     final_newline: bool = False    # the script ends with a line separator
     comment_sep: str = '  # '      # how a trailing comment is attached: after blanks, or glued to the last token ('#')
+    paren_inner: str = ''          # blanks directly after an opening and before a closing parenthesis: '( B + C )', 'max( Y, C )'
+    wrap_own_lines: bool = False   # a wrapped right-hand side has its outer brackets on lines of their own
     inner_blank: str = ''          # inside a wrapped (parenthesised, multi-line) right-hand side: '' / 'blank' / 'spaces' / 'comment' line between two continuation lines
 
     @staticmethod
@@ -105,7 +107,8 @@ class Layout:
                       op_space=rnd.choice([' ', '', '  ', '\t']), eq_space=rnd.choice([' ', '', '   ', '\t']),
                       idx_inner=rnd.choice(['', ' ']), brace_inner=rnd.choice(['', ' ', '  ']), plus_sign=rnd.random() < 0.5,
                       zero_index=rnd.random() < 0.3, wrap_rhs=rnd.random() < 0.3, comment=rnd.random() < 0.3,
-                      blank_lines=rnd.random() < 0.3, call_space=rnd.choice(['', '', ' ', '  ']))
+                      blank_lines=rnd.random() < 0.3, call_space=rnd.choice(['', '', ' ', '  ']),
+                      paren_inner=rnd.choice(['', '', ' ', '  ']), wrap_own_lines=rnd.random() < 0.4)
 
 
 PLAIN = Layout()
@@ -146,10 +149,11 @@ def prec(e) -> int:
 def render(e, lay: Layout = PLAIN, *, brk: str = '') -> str:
     """Text whose Python parse is exactly the tree (parentheses are added wherever precedence requires them)."""
     sp = lay.op_space
+    pi = lay.paren_inner
 
     def sub(x, need: bool):
         s_ = render(x, lay, brk=brk)
-        return '(' + s_ + ')' if need else s_
+        return '(' + pi + s_ + pi + ')' if need else s_
     if isinstance(e, Var):
         return render_var(e, lay)
     if isinstance(e, Num):
@@ -167,11 +171,11 @@ def render(e, lay: Layout = PLAIN, *, brk: str = '') -> str:
         inner = sub(e.x, prec(e.x) < 3 or isinstance(e.x, Neg))
         return '-' + inner
     if isinstance(e, Call):
-        return f'{e.f}{lay.call_space}(' + (',' + (sp or ' ')).join(render(a, lay, brk=brk) for a in e.args) + ')'
+        return f'{e.f}{lay.call_space}(' + pi + (',' + (sp or ' ')).join(render(a, lay, brk=brk) for a in e.args) + pi + ')'
     if isinstance(e, Paren):
-        return '(' + render(e.x, lay, brk=brk) + ')'
+        return '(' + pi + render(e.x, lay, brk=brk) + pi + ')'
     if isinstance(e, Cond):
-        return f'({render(e.x, lay)} if {render(e.a, lay)} {e.cmp} {render(e.b, lay)} else {render(e.y, lay)})'
+        return f'({pi}{render(e.x, lay)} if {render(e.a, lay)} {e.cmp} {render(e.b, lay)} else {render(e.y, lay)}{pi})'
     if isinstance(e, Verb):
         return '`' + e.text + '`'
     raise TypeError(e)
@@ -182,7 +186,7 @@ def render_eq(eq: Eq, lay: Layout = PLAIN) -> str:
     # (a space inside the index brackets there is rejected loudly with ParserError; see DESIGN 8.1, C14)
     lhs = render_var(eq.lhs, Layout(plus_sign=lay.plus_sign, zero_index=lay.zero_index and eq.lhs.kind == 'var'))
     if lay.wrap_rhs:
-        rhs = '(' + render(eq.rhs, lay, brk='\n        ') + ')'
+        rhs = ('(\n    ' + render(eq.rhs, lay, brk='\n        ') + '\n)') if lay.wrap_own_lines else ('(' + lay.paren_inner + render(eq.rhs, lay, brk='\n        ') + lay.paren_inner + ')')
         if lay.inner_blank and '\n' in rhs:
             filler = {'blank': '', 'spaces': '      ', 'comment': '    # a comment-only line inside the brackets (see `x` [1]'}[lay.inner_blank]
             rhs = rhs.replace('\n', '\n' + filler + '\n', 1)
@@ -470,6 +474,12 @@ def small_programs() -> List[List[Eq]]:
         # an offset on the left-hand side is an offset of the script like any other (LAGS / LEADS, default range, graph node)
         [Eq(V_('K', 1), Bin('+', V_('K'), V_('DK')))],
         [Eq(V_('H', -2), Bin('-', V_('H', -1), V_('C'))), Eq(V_('C'), Bin('*', P_('a'), V_('H', -2)))],
+        # max / min take any number of arguments
+        [Eq(V_('Y'), Call('max', (V_('X'), V_('Z'), Num('1.5')))), Eq(V_('W'), Call('min', (V_('X'), V_('Y', -1), V_('Z'), Num('2'))))],
+        # a partial verbatim fragment in the middle of an equation: the terms after it count like the ones before it
+        # (the deepest lag / furthest lead of the script may well stand behind a fragment)
+        [Eq(V_('K'), Bin('-', Bin('+', V_('K', -1), V_('I')), Bin('*', Verb('0.1'), V_('K', -2))))],
+        [Eq(V_('Y'), Bin('+', Bin('*', Verb('2.0'), V_('X', 1)), Bin('*', P_('b'), E_('u', 3))))],
     ]
     return progs
 
